@@ -58,7 +58,7 @@ def run(ctx):
             continue
         acc += mapping_accesses(f, is_table)
         # `key in self.long_form_tags` handled by mapping_accesses; also direct iteration is not an access by key
-    ctx.floor("R3.1", "accessors of the all-forms table", len(acc), 4)
+    ctx.floor("R3.1", "accessors of the all-forms table", len(acc), 3)
     # the section's case-insensitivity default and construction
     a = init.node.args
     default_ok = any(k.arg == "case_sensitive" and isinstance(d, ast.Constant) and d.value is False
@@ -130,7 +130,7 @@ def run(ctx):
         raise AnalysisError("R3.2 anchor: _find_tag_entry has no case-folded working copy")
     rets = [r for r in walk_no_nested(fte.node) if isinstance(r, ast.Return) and isinstance(r.value, ast.Tuple)
             and len(r.value.elts) == 3]
-    ctx.floor("R3.2", "3-tuple returns of _find_tag_entry", len(rets), 3)
+    ctx.floor("R3.2", "3-tuple returns of _find_tag_entry", len(rets), 2)
     for r in rets:
         rem = r.value.elts[1]
         bad = []
